@@ -2,6 +2,7 @@ package modes
 
 import (
 	"context"
+	"net"
 	"encoding/json"
 	"errors"
 	"fmt"
@@ -63,10 +64,22 @@ func limeGoroutines() []string {
 }
 
 func runC18Case(c *c18Case) c18Res {
+	if c.CloseAt == "during-listen" {
+		return runC18Gate(c)
+	}
 	res := c18Res{Problems: []string{}}
 	cb := &cbLog{}
+	var srvRef atomic.Value // *lime.Server, for the authenticator that closes the server from inside the handshake
 	b := lime.NewServerBuilder().Name("postmaster").Domain("verif.local").Instance("s").
 		EnableGuestAuthentication().
+		EnablePlainAuthentication(func(_ context.Context, _ lime.Identity, pwd string) (*lime.AuthenticationResult, error) {
+			if pwd == "close-now" {
+				if s, ok := srvRef.Load().(*lime.Server); ok {
+					_ = s.Close()
+				}
+			}
+			return lime.MemberAuthenticationResult(), nil
+		}).
 		Register(func(_ context.Context, cand lime.Node, _ *lime.ServerChannel) (lime.Node, error) {
 			return lime.Node{Identity: lime.Identity{Name: cand.Name, Domain: "verif.local"}, Instance: "x"}, nil
 		}).
@@ -111,6 +124,7 @@ func runC18Case(c *c18Case) c18Res {
 		}
 	}
 	srv := b.Build()
+	srvRef.Store(srv)
 	serveDone := make(chan error, 1)
 	go func() { serveDone <- srv.ListenAndServe() }()
 
@@ -165,6 +179,21 @@ func runC18Case(c *c18Case) c18Res {
 				} else {
 					res.Problems = append(res.Problems, fmt.Sprintf("harness: establish failed: %v", err))
 				}
+			case "est-closing":
+				// the server is closed from inside this client's Authenticate callback: the handshake
+				// may still complete, and then the session is a session like any other
+				ses, err := cl.ch.EstablishSession(ctx, lime.NoneCompressionSelector, lime.NoneEncryptionSelector,
+					lime.Identity{Name: "closer", Domain: "verif.local"},
+					func([]lime.AuthenticationScheme, lime.Authentication) lime.Authentication {
+						a := &lime.PlainAuthentication{}
+						a.SetPasswordAsBase64("close-now")
+						return a
+					}, "i")
+				if err == nil && ses.State == lime.SessionStateEstablished {
+					cl.est = true
+					cl.sid = ses.ID
+					res.Established++
+				}
 			case "bad":
 				// guest with a non-UUID name is refused by the built-in authenticator
 				_, _ = cl.ch.EstablishSession(ctx, lime.NoneCompressionSelector, lime.NoneEncryptionSelector,
@@ -214,6 +243,9 @@ func runC18Case(c *c18Case) c18Res {
 	} else {
 		cerr = srv.Close()
 	}
+	if cerr != nil && c.CloseAt == "in-auth" && strings.Contains(cerr.Error(), "not listening") {
+		cerr = nil // the server was closed from inside the handshake already
+	}
 	if cerr != nil {
 		res.CloseErr = cerr.Error()
 	}
@@ -230,6 +262,7 @@ func runC18Case(c *c18Case) c18Res {
 	// listeners stopped
 	for i, d := range dials {
 		if t, err := d(); err == nil {
+			res.Problems = append(res.Problems, fmt.Sprintf("listener %s still accepts connections after Close and the return of ListenAndServe", c.Listeners[i]))
 			// a tcp/ws dial may still connect to a backlog; it must not be served
 			ctx, cancel := context.WithTimeout(context.Background(), 300*time.Millisecond)
 			_ = t.Send(ctx, &lime.Session{State: lime.SessionStateNew})
@@ -346,8 +379,14 @@ func genC18Case(e *Env) *c18Case {
 	for i := 0; i < n; i++ {
 		c.Listeners = append(c.Listeners, all[r.Intn(3)])
 	}
-	ats := []string{"start", "ready", "storm", "clients", "clients"}
+	ats := []string{"start", "ready", "storm", "clients", "clients", "in-auth", "during-listen"}
 	c.CloseAt = ats[r.Intn(len(ats))]
+	if c.CloseAt == "in-auth" {
+		for i := 0; i < r.Intn(3); i++ {
+			c.Clients = append(c.Clients, "est")
+		}
+		c.Clients = append(c.Clients, "est-closing")
+	}
 	if c.CloseAt == "clients" {
 		kinds := []string{"est", "est", "half", "dial", "bad"}
 		m := 1 + r.Intn(3)
@@ -368,6 +407,8 @@ func c18Key(problem string) string {
 	switch {
 	case strings.Contains(problem, "panic"):
 		return "c18-panic"
+	case strings.Contains(problem, "still accepts connections") || strings.Contains(problem, "cannot be started again"):
+		return "c18-listener-left"
 	case strings.Contains(problem, "instead of the server-closed error"):
 		return "c18-serve-error"
 	case strings.Contains(problem, "never reached the established state"):
@@ -500,4 +541,145 @@ func init() {
 		wg.Wait()
 		return firstErr
 	})
+}
+
+// gateListener is a listener whose Listen blocks until the harness lets it go: with it first in the
+// list, a Close can be placed exactly between the start of ListenAndServe and the start of the
+// listeners that follow.
+type gateListener struct {
+	entered chan struct{}
+	release chan struct{}
+	done    chan struct{}
+	once    sync.Once
+}
+
+func (g *gateListener) Listen(context.Context, net.Addr) error {
+	close(g.entered)
+	<-g.release
+	return nil
+}
+func (g *gateListener) Accept(ctx context.Context) (lime.Transport, error) {
+	select {
+	case <-ctx.Done():
+		return nil, ctx.Err()
+	case <-g.done:
+		return nil, errors.New("gate listener closed")
+	}
+}
+func (g *gateListener) Close() error { g.once.Do(func() { close(g.done) }); return nil }
+
+type gateAddr string
+
+func (gateAddr) Network() string { return "gate" }
+func (gateAddr) String() string  { return "gate" }
+
+// runC18Gate: Close overtakes the start-up (forced): afterwards no listener may be left, and the
+// same addresses can be served again.
+func runC18Gate(c *c18Case) c18Res {
+	res := c18Res{Problems: []string{}}
+	g := &gateListener{entered: make(chan struct{}), release: make(chan struct{}), done: make(chan struct{})}
+	bound := []lime.BoundListener{lime.NewBoundListener(g, gateAddr("gate"))}
+	type probe struct {
+		kind  string
+		dial  func() (lime.Transport, error)
+		again func() error // start a fresh listener on the same address and stop it
+	}
+	probes := []probe{}
+	for _, l := range c.Listeners {
+		switch l {
+		case "inproc":
+			addr := lime.InProcessAddr(fmt.Sprintf("verif-c18g-%d", atomic.AddInt64(&srvSeq, 1)))
+			bound = append(bound, lime.NewBoundListener(lime.NewInProcessTransportListener(addr), addr))
+			probes = append(probes, probe{l, func() (lime.Transport, error) { return lime.DialInProcess(addr, 1) }, func() error {
+				nl := lime.NewInProcessTransportListener(addr)
+				if err := nl.Listen(context.Background(), addr); err != nil {
+					return err
+				}
+				return nl.Close()
+			}})
+		case "tcp":
+			a, err := freePort()
+			if err != nil {
+				res.Problems = append(res.Problems, "harness: "+err.Error())
+				return res
+			}
+			bound = append(bound, lime.NewBoundListener(lime.NewTCPTransportListener(nil), a))
+			probes = append(probes, probe{l, func() (lime.Transport, error) {
+				ctx, cl := context.WithTimeout(context.Background(), time.Second)
+				defer cl()
+				return lime.DialTcp(ctx, a, nil)
+			}, func() error {
+				nl := lime.NewTCPTransportListener(nil)
+				if err := nl.Listen(context.Background(), a); err != nil {
+					return err
+				}
+				return nl.Close()
+			}})
+		case "ws":
+			a, err := freePort()
+			if err != nil {
+				res.Problems = append(res.Problems, "harness: "+err.Error())
+				return res
+			}
+			bound = append(bound, lime.NewBoundListener(lime.NewWebsocketTransportListener(nil), a))
+			probes = append(probes, probe{l, func() (lime.Transport, error) {
+				ctx, cl := context.WithTimeout(context.Background(), time.Second)
+				defer cl()
+				return lime.DialWebsocket(ctx, "ws://"+a.String(), nil, nil)
+			}, func() error {
+				nl := lime.NewWebsocketTransportListener(nil)
+				if err := nl.Listen(context.Background(), a); err != nil {
+					return err
+				}
+				return nl.Close()
+			}})
+		}
+	}
+	srv := lime.NewServer(lime.NewServerConfig(), &lime.EnvelopeMux{}, bound...)
+	serveDone := make(chan error, 1)
+	go func() { serveDone <- srv.ListenAndServe() }()
+	select {
+	case <-g.entered:
+	case <-time.After(5 * time.Second):
+		res.Problems = append(res.Problems, "harness: ListenAndServe never started its first listener")
+		return res
+	}
+	if err := srv.Close(); err != nil {
+		res.CloseErr = err.Error() // listeners that were not started yet say so
+	}
+	close(g.release)
+	select {
+	case err := <-serveDone:
+		if err != nil {
+			res.ServeErr = err.Error()
+		}
+		res.ServeClosed = errors.Is(err, lime.ErrServerClosed)
+		if !res.ServeClosed {
+			res.Problems = append(res.Problems, "ListenAndServe returned "+res.ServeErr+" instead of the server-closed error")
+		}
+	case <-time.After(15 * time.Second):
+		res.ServeTimeout = true
+		res.Problems = append(res.Problems, "ListenAndServe did not return after Close")
+	}
+	for _, p := range probes {
+		if t, err := p.dial(); err == nil {
+			res.Problems = append(res.Problems, fmt.Sprintf("listener %s still accepts connections after Close and the return of ListenAndServe", p.kind))
+			t.Close()
+		}
+		if err := p.again(); err != nil {
+			res.Problems = append(res.Problems, fmt.Sprintf("listener %s cannot be started again on its address after the server was closed: %v", p.kind, err))
+		}
+	}
+	deadline := time.Now().Add(7 * time.Second)
+	for {
+		res.Leaked = limeGoroutines()
+		if len(res.Leaked) == 0 || time.Now().After(deadline) {
+			break
+		}
+		time.Sleep(20 * time.Millisecond)
+	}
+	if len(res.Leaked) > 0 {
+		res.Problems = append(res.Problems, fmt.Sprintf("%d goroutine(s) of the library left after Close, first at %s", len(res.Leaked), res.Leaked[0]))
+	}
+	return res
 }
